@@ -59,6 +59,8 @@ def norm_literal(cond, pol):
     if not isinstance(t, dict):
         return []
     k = t.get("k")
+    if k == "call" and t.get("f") == "__builtin_expect" and t.get("a"):
+        return norm_literal(t["a"][0], pol)       # LIKELY(c) / UNLIKELY(c)
     if k == "un" and t.get("op") == "!":
         return norm_literal(t["x"], not pol)
     if k == "bin" and t["op"] in NEG:
@@ -448,6 +450,8 @@ class XGraph(object):
         if not isinstance(t, dict):
             return st
         k = t.get("k")
+        if k == "call" and t.get("f") == "__builtin_expect" and t.get("a"):
+            return self._truth(st, t["a"][0], pol)
         if k == "un" and t.get("op") == "!":
             return self._truth(st, t["x"], not pol)
         if k == "bin" and t["op"] in ("==", "!="):
